@@ -465,13 +465,14 @@ structure Moved (elim : List Cand) (a a' : Alloc) : Prop where
   cont_eq : continuing a' = (continuing a).filter (fun c => decide (c ∉ elim))
   keys : KeysNodup a → KeysNodup a'
   nonneg : NonNeg a → NonNeg a'
+  keep_none : none ∈ allocKeys a → none ∈ allocKeys a'
   rests : RestsOK a → RestsOK a'
 
 theorem transferIf_moved {E : Engine} (hE : EngineOK E) {a a' : Alloc} {elim : List Cand} {ds ds' : List Draw}
     (h : transferIf E a elim ds = .ok (a', ds')) : Moved elim a a' := by
   rw [transferIf_eq] at h
   have hs := transfer_spec hE h
-  refine ⟨hs.held_eq, transfer_continuing hE h, hs.keys, hs.nonneg, ?_⟩
+  refine ⟨hs.held_eq, transfer_continuing hE h, hs.keys, hs.nonneg, hs.keep_none, ?_⟩
   apply RestsOK.of_transfer hs
   intro t
   simp only [List.mem_filter, decide_eq_true_eq, decide_not, Bool.not_eq_eq_eq_not, Bool.not_true,
@@ -567,6 +568,7 @@ structure CountInv (a : Alloc) (q : Rat) (out : CountOut) : Prop where
   keys : KeysNodup out.alloc
   nonneg : NonNeg a → NonNeg out.alloc
   rests : RestsOK a → RestsOK out.alloc
+  keep_none : none ∈ allocKeys a → none ∈ allocKeys out.alloc
   cont_eq : continuing out.alloc = (continuing a).filter (fun c => decide (c ∉ out.eliminated))
 
 theorem election_facts {a : Alloc} (hk : KeysNodup a) {eq : Bool} {qv : Rat} (hpos : 0 < qv) {nRem : Nat}
@@ -605,7 +607,8 @@ theorem count_inv {E : Engine} (hE : EngineOK E) {cfg : Cfg} {a : Alloc} (hk : K
     have hm := transferIf_moved hE htr
     obtain ⟨hnd, hfacts⟩ := election_facts hk hpos hel
     have hq' : quotaValue cfg total nSeats = qv := by simp [quotaValue, hq]
-    refine ⟨?_, hm.keys hk1, fun hn => hm.nonneg (hs.nonneg hn), fun hr => hm.rests (RestsOK.of_subtract hs hr), ?_⟩
+    refine ⟨?_, hm.keys hk1, fun hn => hm.nonneg (hs.nonneg hn), fun hr => hm.rests (RestsOK.of_subtract hs hr),
+      fun hn => hm.keep_none (by rw [hs.keys_eq]; exact hn), ?_⟩
     · rw [hm.held_eq hk1, hs.held_eq hk (by simpa [List.map_map, Function.comp_def] using hnd)
         (by
           intro x hx
@@ -623,7 +626,7 @@ theorem count_inv {E : Engine} (hE : EngineOK E) {cfg : Cfg} {a : Alloc} (hk : K
   | elimination hout =>
     obtain ⟨retained, _, _, htr, he1, _⟩ := afterElimination_inv hout
     have hm := transferIf_moved hE htr
-    refine ⟨?_, hm.keys hk, hm.nonneg, hm.rests, hm.cont_eq⟩
+    refine ⟨?_, hm.keys hk, hm.nonneg, hm.rests, hm.keep_none, hm.cont_eq⟩
     rw [hm.held_eq hk, he1]; simp [sumSeats]
 
 end VL.STV
